@@ -3,11 +3,13 @@ SPECIFICATION Spec
 CONSTANTS
   Rcpts = {"rb"}
   NTs = {2}
+  Lmtps = {TRUE, FALSE}
+  Holds = {TRUE, FALSE}
   Fails = {"perm"}
   MaxFaults = 1
   MaxCmds = 5
   Allowed = {"*"}
-  Devs = {"DataFailNoAbort", "CommitStopsAtFirst", "LmtpStatusKey", "EhloNoLogout", "MailRawSender", "NestedMail", "LmtpCommitErrLost"}
+  Devs = {"DataFailNoAbort", "CommitStopsAtFirst", "LmtpStatusKey", "EhloNoLogout", "MailRawSender", "NestedMail", "LmtpCommitErrLost", "LmtpCommitAfterReject"}
   Gen = FALSE
 VIEW View
 INVARIANTS NoViolation
